@@ -23,6 +23,20 @@ def app(prop, theorems, explanation, assumptions, facts=None):
 
 
 PROPS = {
+    "C13": app(
+        "C13",
+        ["C13_replay", "C13_commit_pure", "C13_saved_height", "C13_atomic_save", "C13_persist_order_pinned"],
+        "Theorems (Lean): replay determinism of the model over any split of any history; the saved height is the last "
+        "executed block; crash-atomicity of the create/write/sync/rename protocol on a file-system model with loss of "
+        "un-synced data, for every crash point including inside the write; the protocol's step order is regenerated from "
+        "the source and pinned. Checked on the real code: at commit points of generated histories the state is saved with "
+        "PersistToDisk, reloaded with LoadShutterAppFromFile, compared, and both nodes continue and are compared call by "
+        "call; one real save is run under strace and the observed syscall sequence is judged by the Lean predicate.",
+        ["gob decode(encode(s)) = s is a library fact: checked on every visited state, not proved",
+         "rename(2) is atomic and does not reorder before previously fsynced data; un-synced data may be lost from the end",
+         "real fsync durability is the operating system's"],
+        facts=["persist"],
+    ),
     "C09": app(
         "C09",
         ["C09_order_irrelevant", "C09_wf_init", "C09_wf_step", "C09_replicas_agree", "C09_map_ranges_pinned",
